@@ -636,11 +636,11 @@ theorem finishSpec_step {t : Table} {c : Call} {ns : List String} {b : Bool} {r 
     | true => exact hbar rfl hm
     | false => exact absurd hm (hb rfl)
 
-/-- every call either is rejected with an error whose ISO condition holds, leaving the table as it
-    was, or is accepted and performs exactly the updates of its names. -/
-theorem opStep_spec (t : Table) (c : Call) : StepSpec t c (opStep t c) := by
+/-- all-or-nothing variant: every call either is rejected with an error whose ISO condition holds,
+    leaving the table as it was, or is accepted and performs exactly the updates of its names. -/
+theorem opStepAtomic_spec (t : Table) (c : Call) : StepSpec t c (opStepAtomic t c) := by
   obtain ⟨P, S, O⟩ := c
-  unfold opStep opStepImpl
+  unfold opStepAtomic opStepImpl
   by_cases hP : P = .var
   · subst hP; exact .inl ⟨_, rfl, .instPrio rfl⟩
   by_cases hS : S = .var
@@ -775,16 +775,23 @@ theorem accepted_no_isoErr {t : Table} {c : Call} {p : Nat} {s : Spec} {ns : Lis
 
 /-! ### invariants -/
 
-theorem accepted_protected {t : Table} {c : Call} {p : Nat} {s : Spec} {ns : List String}
-    (ha : Accepted t c p s ns) {n : String} (hn : validOp n ≠ none) (cl : Cls) :
+theorem protected_setAll {t : Table} {p : Nat} {s : Spec} {ns : List String}
+    (hv : ∀ n ∈ ns, validOp n = none) {n : String} (hn : validOp n ≠ none) (cl : Cls) :
     lookup (setAll t p s ns) n cl = lookup t n cl := by
   rw [lookup_setAll, if_neg]
   rintro ⟨hm, _⟩
-  exact hn (ha.valid n hm)
+  exact hn (hv n hm)
 
-theorem accepted_inv {t : Table} {c : Call} {p : Nat} {s : Spec} {ns : List String}
-    (ha : Accepted t c p s ns) (hi : Inv t) : Inv (setAll t p s ns) := by
-  have hle := checkPriority_le ha.prio
+theorem accepted_protected {t : Table} {c : Call} {p : Nat} {s : Spec} {ns : List String}
+    (ha : Accepted t c p s ns) {n : String} (hn : validOp n ≠ none) (cl : Cls) :
+    lookup (setAll t p s ns) n cl = lookup t n cl :=
+  protected_setAll ha.valid hn cl
+
+/-- the updates of a list of admissible, non-clashing names preserve the invariants. -/
+theorem inv_setAll {t : Table} {p : Nat} {s : Spec} {ns : List String} (hle : p ≤ 1200)
+    (hvalid : ∀ n ∈ ns, validOp n = none) (hbar : "|" ∈ ns → barOk p s = true)
+    (hnoClash : p ≠ 0 → ∀ n ∈ ns, conflict t s n = false) (hi : Inv t) :
+    Inv (setAll t p s ns) := by
   refine ⟨wf_setAll hi.wf p s ns, ?_, ?_, ?_, ?_⟩
   · -- no infix + postfix
     intro n
@@ -794,7 +801,7 @@ theorem accepted_inv {t : Table} {c : Call} {p : Nat} {s : Spec} {ns : List Stri
       · left; split <;> simp [h]
       · right; split <;> simp [h]
     · by_cases hn : n ∈ ns
-      · have hc := ha.noClash h0 n hn
+      · have hc := hnoClash h0 n hn
         unfold conflict at hc
         cases hcls : s.cls with
         | inf =>
@@ -826,12 +833,12 @@ theorem accepted_inv {t : Table} {c : Call} {p : Nat} {s : Spec} {ns : List Stri
       exact hi.range n cl p' s' h
   · -- [] and {}
     intro cl
-    rw [accepted_protected ha (by decide), accepted_protected ha (by decide)]
+    rw [protected_setAll hvalid (by decide), protected_setAll hvalid (by decide)]
     exact hi.nilCurly cl
   · -- '|'
     have hb : "|" ∈ ns → s.cls = .inf ∧ (1001 ≤ p ∨ p = 0) := by
       intro hm
-      have := ha.bar hm
+      have := hbar hm
       simpa [barOk] using this
     refine ⟨?_, ?_, ?_⟩
     · rw [lookup_setAll, if_neg]
@@ -853,6 +860,10 @@ theorem accepted_inv {t : Table} {c : Call} {p : Nat} {s : Spec} {ns : List Stri
           · exact absurd h1 h0
       · rw [if_neg hc] at h
         exact hi.bar.2.2 p' s' h
+
+theorem accepted_inv {t : Table} {c : Call} {p : Nat} {s : Spec} {ns : List String}
+    (ha : Accepted t c p s ns) (hi : Inv t) : Inv (setAll t p s ns) :=
+  inv_setAll (checkPriority_le ha.prio) ha.valid ha.bar ha.noClash hi
 
 /-! ### `current_op/3` in every instantiation mode -/
 
@@ -919,7 +930,104 @@ theorem mem_currentOpQ {t : Table} (h : wf t) (q : Pat) (x : Nat × Spec × Stri
           rw [hmm.1, hmm.2, hg]
           simpa using hv
 
-/-! ### the code as written versus the ISO step -/
+/-! ### the list form as the code runs it (no look-ahead for clashes) -/
+
+theorem find_conflict_split {t : Table} {s : Spec} {pre : List String} {n : String}
+    {post : List String} (hpre : ∀ m ∈ pre, conflict t s m = false) (hn : conflict t s n = true) :
+    (pre ++ n :: post).find? (conflict t s) = some n := by
+  induction pre with
+  | nil => simp [hn]
+  | cons a r ih =>
+    have ha := hpre a List.mem_cons_self
+    simp only [List.cons_append, List.find?_cons, ha]
+    exact ih fun m hm => hpre m (List.mem_cons_of_mem _ hm)
+
+/-- `maplist(op_(P,S), Names)` with a non-zero priority: all updates, or the updates of the
+    elements in front of the first clashing one together with that element's permission error. -/
+theorem applyList_split (t : Table) (p : Nat) (s : Spec) (ns : List String) (h0 : p ≠ 0) :
+    ((∀ n ∈ ns, conflict t s n = false) ∧ applyList t p s ns = (setAll t p s ns, none)) ∨
+    (∃ pre n post, ns = pre ++ n :: post ∧ (∀ m ∈ pre, conflict t s m = false) ∧
+      conflict t s n = true ∧ applyList t p s ns = (setAll t p s pre, some (.permCreate n))) := by
+  induction ns generalizing t with
+  | nil => exact .inl ⟨by simp, rfl⟩
+  | cons a r ih =>
+    cases hc : conflict t s a with
+    | true =>
+      right
+      refine ⟨[], a, r, rfl, by simp, hc, ?_⟩
+      simp [applyList, declare, h0, hc]
+    | false =>
+      have hd : declare t p s a = .ok (set t a p s) := declare_of_noClash fun _ => hc
+      rcases ih (set t a p s) with ⟨h1, h2⟩ | ⟨pre, n, post, h1, h2, h3, h4⟩
+      · left
+        refine ⟨?_, ?_⟩
+        · intro n hn
+          rcases List.mem_cons.1 hn with rfl | hn
+          · exact hc
+          · rw [← conflict_set t a p s n]; exact h1 n hn
+        · simp only [applyList, hd, setAll_cons]; exact h2
+      · right
+        refine ⟨a :: pre, n, post, by rw [h1]; rfl, ?_, ?_, ?_⟩
+        · intro m hm
+          rcases List.mem_cons.1 hm with rfl | hm
+          · exact hc
+          · rw [← conflict_set t a p s m]; exact h2 m hm
+        · rw [← conflict_set t a p s n]; exact h3
+        · simp only [applyList, hd, setAll_cons]; exact h4
+
+/-- outcome `r` of the list form without look-ahead against outcome `ra` of the all-or-nothing
+    variant, when they differ. -/
+def PartialUpdate (t : Table) (P S : Arg) (ns : List String) (r ra : Table × Option Err) : Prop :=
+  ∃ p s pre n post, checkPriority P = .ok p ∧ checkSpec S = .ok s ∧ p ≠ 0 ∧
+    ("|" ∈ ns → barOk p s = true) ∧ ns = pre ++ n :: post ∧
+    (∀ m ∈ pre, conflict t s m = false) ∧ conflict t s n = true ∧
+    ra = (t, some (.permCreate n)) ∧ r = (setAll t p s pre, some (.permCreate n))
+
+theorem finish_list_lax (t : Table) (P S : Arg) (ns : List String) :
+    finish ⟨true, false⟩ t P S true ns = finish ⟨true, true⟩ t P S true ns ∨
+    PartialUpdate t P S ns (finish ⟨true, false⟩ t P S true ns)
+      (finish ⟨true, true⟩ t P S true ns) := by
+  unfold PartialUpdate finish
+  cases hp : checkPriority P with
+  | error e => exact .inl rfl
+  | ok p =>
+    cases hs : checkSpec S with
+    | error e => exact .inl rfl
+    | ok s =>
+      simp only [Bool.true_and, Bool.false_and, Bool.false_eq_true, if_false]
+      cases hb : (ns.contains "|" && !barOk p s) with
+      | true => left; simp only [if_true]
+      | false =>
+        simp only [Bool.false_eq_true, if_false]
+        have hb' : "|" ∈ ns → barOk p s = true := by
+          intro hm
+          cases hk : barOk p s with
+          | true => rfl
+          | false => simp [hm, hk] at hb
+        by_cases h0 : p = 0
+        · left; simp [h0]
+        · have hdec : decide (p ≠ 0) = true := by simp [h0]
+          rw [hdec]
+          simp only [if_true]
+          rcases applyList_split t p s ns h0 with ⟨h1, h2⟩ | ⟨pre, n, post, h1, h2, h3, h4⟩
+          · left
+            have hf : ns.find? (conflict t s) = none := by
+              rw [List.find?_eq_none]
+              intro n hn
+              simp [h1 n hn]
+            rw [hf]
+          · right
+            have hf : ns.find? (conflict t s) = some n := by
+              rw [h1]; exact find_conflict_split h2 h3
+            rw [hf]
+            exact ⟨p, s, pre, n, post, rfl, rfl, h0, hb', h1, h2, h3, rfl, h4⟩
+
+theorem opStepImpl_list {fx : Fixes} {t : Table} {c : Call} {hd : Arg} {tl : List Arg} {tail : Arg}
+    {ns : List String} (hP : c.prio ≠ .var) (hS : c.spec ≠ .var) (ho : c.op = .cons hd tl tail)
+    (hl : listCheck (hd :: tl) tail = .ok (some ns)) :
+    opStepImpl fx t c = finish fx t c.prio c.spec true ns := by
+  unfold opStepImpl
+  simp only [hP, hS, if_false, ho, hl]
 
 theorem finish_nonlist (fx fx' : Fixes) (t : Table) (P S : Arg) (ns : List String) :
     finish fx t P S false ns = finish fx' t P S false ns := by
@@ -931,53 +1039,21 @@ theorem finish_nonlist (fx fx' : Fixes) (t : Table) (P S : Arg) (ns : List Strin
     | error e => rfl
     | ok s => simp
 
-/-- the inputs on which `op/3` as written leaves the ISO step: a list whose elements pass
-    `list_of_op_atoms`, valid priority and specifier, and either `'|'` among the elements with a
-    priority/specifier the `'|'` rule forbids, or an element that clashes (infix/postfix). -/
-def Deviates (t : Table) (c : Call) : Prop :=
-  ∃ hd tl tail ns p s, c.op = .cons hd tl tail ∧ listCheck (hd :: tl) tail = .ok (some ns) ∧
-    checkPriority c.prio = .ok p ∧ checkSpec c.spec = .ok s ∧
-    (("|" ∈ ns ∧ barOk p s = false) ∨ (p ≠ 0 ∧ ∃ n ∈ ns, conflict t s n = true))
-
-theorem finish_list_asIs {t : Table} {P S : Arg} {ns : List String}
-    (h : ∀ p s, checkPriority P = .ok p → checkSpec S = .ok s →
-      ("|" ∈ ns → barOk p s = true) ∧ (p ≠ 0 → ∀ n ∈ ns, conflict t s n = false)) :
-    finish asIs t P S true ns = finish ⟨true, true⟩ t P S true ns := by
-  unfold finish asIs
-  cases hp : checkPriority P with
-  | error e => rfl
-  | ok p =>
-    cases hs : checkSpec S with
-    | error e => rfl
-    | ok s =>
-      obtain ⟨h1, h2⟩ := h p s hp hs
-      have hb : (ns.contains "|" && !barOk p s) = false := by
-        cases hc : ns.contains "|" with
-        | false => rfl
-        | true => simp [h1 (List.contains_iff_mem.1 hc)]
-      simp only [Bool.false_and, Bool.false_eq_true, if_false, Bool.true_and, hb]
-      by_cases h0 : p = 0
-      · simp [h0]
-      · have hf : ns.find? (conflict t s) = none := by
-          rw [List.find?_eq_none]
-          intro n hn
-          simp [h2 h0 n hn]
-        simp [h0, hf]
-
-theorem impl_eq_iso_or_deviates (t : Table) (c : Call) :
-    opStepImpl asIs t c = opStep t c ∨ Deviates t c := by
-  by_cases hd : Deviates t c
-  · exact .inr hd
-  left
+/-- two variants of `op/3` can differ only on a list that passes `list_of_op_atoms`. -/
+theorem opStepImpl_eq_or_list (fx fx' : Fixes) (t : Table) (c : Call) :
+    opStepImpl fx t c = opStepImpl fx' t c ∨
+    ∃ hd tl tail ns, c.prio ≠ .var ∧ c.spec ≠ .var ∧ c.op = .cons hd tl tail ∧
+      listCheck (hd :: tl) tail = .ok (some ns) := by
   obtain ⟨P, S, O⟩ := c
-  unfold opStep opStepImpl
   by_cases hP : P = .var
-  · simp [hP]
+  · left; unfold opStepImpl; simp [hP]
   by_cases hS : S = .var
-  · simp [hS]
-  simp only [hP, hS, if_false]
+  · left; unfold opStepImpl; simp [hS]
   cases O with
   | one a =>
+    left
+    unfold opStepImpl
+    simp only [hP, hS, if_false]
     cases a with
     | var => rfl
     | int i => rfl
@@ -991,26 +1067,118 @@ theorem impl_eq_iso_or_deviates (t : Table) (c : Call) :
         | some e => rfl
         | none => exact finish_nonlist _ _ t P S [a]
   | cons hd' tl tail =>
-    simp only
     cases hl : listCheck (hd' :: tl) tail with
-    | error e => rfl
+    | error e => left; unfold opStepImpl; simp only [hP, hS, if_false, hl]
     | ok o =>
       cases o with
-      | none => rfl
-      | some ns =>
-        simp only
-        apply finish_list_asIs
-        intro p s hp hs
-        constructor
-        · intro hm
-          cases hb : barOk p s with
-          | true => rfl
-          | false => exact absurd ⟨hd', tl, tail, ns, p, s, rfl, hl, hp, hs, .inl ⟨hm, hb⟩⟩ hd
-        · intro h0 n hn
-          cases hc : conflict t s n with
-          | false => rfl
-          | true =>
-            exact absurd ⟨hd', tl, tail, ns, p, s, rfl, hl, hp, hs, .inr ⟨h0, n, hn, hc⟩⟩ hd
+      | none => left; unfold opStepImpl; simp only [hP, hS, if_false, hl]
+      | some ns => exact .inr ⟨hd', tl, tail, ns, hP, hS, rfl, hl⟩
+
+/-- ISO 8.14.3.1: "in the event of an error being detected in an Operator list argument, it is
+    undefined which, if any, of the atoms in the list is made an operator". What the code does in
+    that event: the call is `op(p, s, [pre…, n, post…])` with admissible names, priority not 0,
+    `n` the first element that clashes (infix against postfix), the error is
+    `permission_error(create, operator, n)` and exactly the elements in front of `n` have been
+    made operators (`t'` is the resulting table). -/
+def PrefixMade (t : Table) (c : Call) (e : Err) (t' : Table) : Prop :=
+  ∃ hd tl p s pre n post, c.op = .cons hd tl (.atom "[]") ∧
+    hd :: tl = (pre ++ n :: post).map .atom ∧ (∀ m ∈ pre ++ n :: post, validOp m = none) ∧
+    checkPriority c.prio = .ok p ∧ p ≠ 0 ∧ checkSpec c.spec = .ok s ∧
+    ("|" ∈ pre ++ n :: post → barOk p s = true) ∧
+    (∀ m ∈ pre, conflict t s m = false) ∧ conflict t s n = true ∧
+    e = .permCreate n ∧ t' = setAll t p s pre
+
+/-- the step of the code (with C43-1 repaired) against the all-or-nothing variant: identical, or
+    the ISO-undefined event, in which both raise the same error. -/
+theorem opStep_lax (t : Table) (c : Call) :
+    opStep t c = opStepAtomic t c ∨
+    ∃ e, (opStep t c).2 = some e ∧ opStepAtomic t c = (t, some e) ∧
+      PrefixMade t c e (opStep t c).1 := by
+  rcases opStepImpl_eq_or_list ⟨true, false⟩ ⟨true, true⟩ t c with h | ⟨hd, tl, tail, ns, hP, hS, ho, hl⟩
+  · exact .inl h
+  · have h1 : opStep t c = finish ⟨true, false⟩ t c.prio c.spec true ns := opStepImpl_list hP hS ho hl
+    have h2 : opStepAtomic t c = finish ⟨true, true⟩ t c.prio c.spec true ns :=
+      opStepImpl_list hP hS ho hl
+    rcases finish_list_lax t c.prio c.spec ns with h | ⟨p, s, pre, n, post, hp, hs, h0, hb, hns, hpre, hn, hra, hr⟩
+    · left; rw [h1, h2, h]
+    · right
+      obtain ⟨ht, hes, hv⟩ := listCheck_some hl
+      refine ⟨.permCreate n, by rw [h1, hr], by rw [h2, hra], ?_⟩
+      refine ⟨hd, tl, p, s, pre, n, post, by rw [ho, ht], by rw [hes, hns], ?_, hp, h0, hs, ?_, hpre, hn,
+        rfl, by rw [h1, hr]⟩
+      · intro m hm; exact hv m (hns ▸ hm)
+      · intro hm; exact hb (hns ▸ hm)
+
+/-- outcome of a call under the ISO step `opStep`: rejected with an ISO error and the table
+    untouched, accepted with exactly the updates of its names, or the ISO-undefined event. -/
+def StepSpecLax (t : Table) (c : Call) (r : Table × Option Err) : Prop :=
+  StepSpec t c r ∨ ∃ e, r.2 = some e ∧ IsoErr t c e ∧ PrefixMade t c e r.1
+
+theorem opStep_spec (t : Table) (c : Call) : StepSpecLax t c (opStep t c) := by
+  rcases opStep_lax t c with h | ⟨e, he, ha, hpm⟩
+  · left; rw [h]; exact opStepAtomic_spec t c
+  · right
+    refine ⟨e, he, ?_, hpm⟩
+    rcases opStepAtomic_spec t c with ⟨e', hr, hi⟩ | ⟨p, s, ns, _, hr⟩
+    · rw [ha] at hr
+      cases hr
+      exact hi
+    · rw [ha] at hr
+      have h2 := congrArg Prod.snd hr
+      simp at h2
+
+theorem prefixMade_inv {t : Table} {c : Call} {e : Err} {t' : Table} (h : PrefixMade t c e t')
+    (hi : Inv t) : Inv t' := by
+  obtain ⟨hd, tl, p, s, pre, n, post, -, -, hv, hp, -, -, hb, hpre, -, -, rfl⟩ := h
+  exact inv_setAll (checkPriority_le hp) (fun m hm => hv m (List.mem_append_left _ hm))
+    (fun hm => hb (List.mem_append_left _ hm)) (fun _ => hpre) hi
+
+theorem prefixMade_protected {t : Table} {c : Call} {e : Err} {t' : Table} (h : PrefixMade t c e t')
+    {n : String} (hn : validOp n ≠ none) (cl : Cls) : lookup t' n cl = lookup t n cl := by
+  obtain ⟨hd, tl, p, s, pre, n', post, -, -, hv, -, -, -, -, -, -, -, rfl⟩ := h
+  exact protected_setAll (fun m hm => hv m (List.mem_append_left _ hm)) hn cl
+
+/-! ### the code as written versus the ISO step -/
+
+/-- the inputs on which `op/3` as written leaves the ISO step: a list whose elements pass
+    `list_of_op_atoms`, valid priority and specifier, and `'|'` among the elements with a
+    priority/specifier the `'|'` rule forbids. -/
+def Deviates (c : Call) : Prop :=
+  ∃ hd tl tail ns p s, c.op = .cons hd tl tail ∧ listCheck (hd :: tl) tail = .ok (some ns) ∧
+    checkPriority c.prio = .ok p ∧ checkSpec c.spec = .ok s ∧ "|" ∈ ns ∧ barOk p s = false
+
+theorem finish_list_asIs {t : Table} {P S : Arg} {ns : List String}
+    (h : ∀ p s, checkPriority P = .ok p → checkSpec S = .ok s → "|" ∈ ns → barOk p s = true) :
+    finish asIs t P S true ns = finish ⟨true, false⟩ t P S true ns := by
+  unfold finish asIs
+  cases hp : checkPriority P with
+  | error e => rfl
+  | ok p =>
+    cases hs : checkSpec S with
+    | error e => rfl
+    | ok s =>
+      have h1 := h p s hp hs
+      have hb : (ns.contains "|" && !barOk p s) = false := by
+        cases hc : ns.contains "|" with
+        | false => rfl
+        | true => simp [h1 (List.contains_iff_mem.1 hc)]
+      simp only [Bool.false_and, Bool.false_eq_true, if_false, Bool.true_and, hb]
+
+theorem impl_eq_iso_or_deviates (t : Table) (c : Call) :
+    opStepImpl asIs t c = opStep t c ∨ Deviates c := by
+  rcases opStepImpl_eq_or_list asIs ⟨true, false⟩ t c with h | ⟨hd, tl, tail, ns, hP, hS, ho, hl⟩
+  · exact .inl h
+  · by_cases hd' : Deviates c
+    · exact .inr hd'
+    left
+    have h1 : opStepImpl asIs t c = finish asIs t c.prio c.spec true ns := opStepImpl_list hP hS ho hl
+    have h2 : opStep t c = finish ⟨true, false⟩ t c.prio c.spec true ns := opStepImpl_list hP hS ho hl
+    rw [h1, h2]
+    apply finish_list_asIs
+    intro p s hp hs hm
+    cases hb : barOk p s with
+    | true => rfl
+    | false => exact absurd ⟨hd, tl, tail, ns, p, s, ho, hl, hp, hs, hm, hb⟩ hd'
 
 /-! ### the default table -/
 
